@@ -102,7 +102,7 @@ PRELUDE_OUT = '''
 use std::path::PathBuf;
 use std::collections::HashMap;
 #[derive(Clone, Copy, PartialEq, Eq)] pub enum Permission { %(perms)s }
-#[derive(PartialEq, Eq)] pub enum Method { GET, POST, PUT, DELETE, HEAD, OPTIONS, PATCH, Other }
+#[derive(Clone, PartialEq, Eq)] pub enum Method { GET, POST, PUT, DELETE, HEAD, OPTIONS, PATCH, Other }
 pub struct KrillManager(u8);
 impl KrillManager {
 %(facade)s
